@@ -316,3 +316,30 @@ def emu_cases(cases, arch):
             c = c + f" cpu={arch}"
         out.append(c)
     return out
+
+def coqchk(pid, timeout=2400):
+    """independent re-check of the compiled property file and everything it depends on; returns
+    dict(ok, axioms, type_in_type, wall, tail)"""
+    t0 = time.time()
+    try:
+        p = subprocess.run(["coqchk", "-silent", "-o", "-Q", COQ, "Memchr", f"Memchr.Props.{pid}"],
+                           stdout=subprocess.PIPE, stderr=subprocess.STDOUT, text=True, timeout=timeout)
+        out, rc = p.stdout, p.returncode
+    except subprocess.TimeoutExpired as ex:
+        out, rc = (ex.stdout or "") + "\nTIMEOUT", 124
+    sect = {}
+    cur = None
+    for line in out.splitlines():
+        m = re.match(r"\* ([^:]+):\s*(.*)$", line.strip())
+        if m:
+            cur = m.group(1).strip()
+            sect[cur] = [m.group(2).strip()] if m.group(2).strip() else []
+        elif cur and line.strip():
+            sect[cur].append(line.strip())
+    def items(k):
+        v = [x for x in sect.get(k, []) if x and x != "<none>"]
+        return v
+    ax = items("Axioms")
+    tit = items("Constants/Inductives relying on type-in-type")
+    return dict(ok=(rc == 0), axioms=ax, type_in_type=tit, unsafe=items("Constants/Inductives relying on unsafe (co)fixpoints")
+                + items("Inductives whose positivity is assumed"), wall=time.time() - t0, tail=out[-600:])
